@@ -143,6 +143,13 @@ let dispatch (op : string) (x : v) : v =
       of_list (fun r -> let b = M.get_log_fluxes_m lg ln10 (to_raw r) in L [of_z b.M.b_flag; of_q b.M.b_w; of_q b.M.b_lf; of_q b.M.b_le]) (args raws)
   | "linreg", [rows] ->
       let (p1, p2) = M.linreg_m (to_list to_row rows) in L [of_q p1; of_q p2]
+  | "radius_sigma", [frac; aps; fl] -> of_q (M.radius_sigma_m (to_q frac) (to_list to_q aps) (to_list to_q fl))
+  | "radius_cumul", [frac; aps; fl] -> of_q (M.radius_cumul_m (to_q frac) (to_list to_q aps) (to_list to_q fl))
+  | "resolved_pkg", [thetas; ds; models] ->
+      (* remove_resolved=True: per model ([per band: radius, threshold, surface brightnesses], mask [distance][band]) *)
+      let of_band (b : M.bandres) : v = L [of_q b.M.b_radius; of_q b.M.b_thr; of_list of_q b.M.b_sigma] in
+      of_list (of_opt (fun (bs, ext) -> L [of_list of_band bs; of_list (of_list of_bool) ext]))
+        (M.resolved_pkg (to_list to_q thetas) (to_list to_q ds) (to_list (to_list (to_list to_pt)) models))
   | "linreg_ortho", [rows] ->
       let (p1, p2) = M.linreg_ortho_m (to_list to_row rows) in L [of_q p1; of_q p2]
   | "optscale_sc", [av; rows] -> of_q (M.optscale_sc_m (to_q av) (to_list to_row rows))
